@@ -56,7 +56,8 @@ def symbolic_function(
         all_kwargs = merge_args_and_kwargs(function, args, kwargs, ignore_first=False)
         if _any_of_the_kwargs_is_a_variable(all_kwargs):
             return Variable(
-                _name__=function.__name__,
+                # functools.partial objects and instances with __call__ have no __name__
+                _name__=getattr(function, "__name__", type(function).__name__),
                 _type_=function,
                 _kwargs_=all_kwargs,
                 _predicate_type_=PredicateType.DecoratedMethod,
